@@ -222,4 +222,28 @@ theorem sumWW_init (k : Nat) : sumWW (fun _ => WPc.idle) k = k := by
   | zero => rfl
   | succ k ih => simp [sumWW, ih, wweight]
 
+/-! ### the channels bound the work in flight -/
+
+theorem cstep_bounded {c c' : Chan} {e : CEv} (h : c.inQ.length ≤ c.k ∧ c.outQ.length ≤ c.k)
+    (hs : cstep c e = some c') : c'.inQ.length ≤ c'.k ∧ c'.outQ.length ≤ c'.k := by
+  obtain ⟨h1, h2⟩ := h
+  cases e <;> simp only [cstep] at hs <;> (repeat' split at hs) <;>
+    first
+    | (simp only [Option.some.injEq] at hs; subst hs; constructor <;> grind)
+    | cases hs
+
+theorem crun_bounded : ∀ (sched : List CEv) (c c' : Chan), (c.inQ.length ≤ c.k ∧ c.outQ.length ≤ c.k) →
+    crun c sched = some c' → c'.inQ.length ≤ c'.k ∧ c'.outQ.length ≤ c'.k := by
+  intro sched
+  induction sched with
+  | nil => intro c c' h hr; simp only [crun, Option.some.injEq] at hr; subst hr; exact h
+  | cons e es ih =>
+    intro c c' h hr
+    simp only [crun] at hr
+    cases hst : cstep c e with
+    | none => simp [hst] at hr
+    | some c1 =>
+      simp only [hst] at hr
+      exact ih c1 c' (cstep_bounded h hst) hr
+
 end GixModel.C51
